@@ -6,6 +6,7 @@ pub mod f3;
 pub mod f4;
 pub mod props;
 pub mod rogue_noise;
+pub mod rogue_session;
 
 #[global_allocator]
 static GLOBAL: alloc_count::Counting = alloc_count::Counting;
